@@ -40,6 +40,8 @@ PLANS = {
         # nesting: a graph with a binding, its graph node, (renamed,) wrapped in an outer graph, whose own and
         # INHERITED bindings are bound / unbound (with_inputs -> wrap -> unbind is depth 3)
         dict(name="nest-D3", scenario="nest", D=3, ops="nest", obs=1, wide=0, lazy=1500),
+        # an ANONYMOUS graph: as_node(name=...) names the node, never the graph
+        dict(name="anon-D3", scenario="anon", D=3, ops="all", obs=1, wide=0, lazy=1500),
         dict(name="all-sim-D6", scenario="all", D=6, ops="all", obs=1, wide=0, simulate=12, lazy=1500),
     ],
     # exhaustive to depth 4 per scenario (depth 5 is 1.3M histories for g0 alone), every operation on the
@@ -52,6 +54,7 @@ PLANS = {
         dict(name="g1-graph-D4", scenario="g1", D=4, ops="graph", obs=1, wide=0, lazy=10000),
         dict(name="nest-D4", scenario="nest", D=4, ops="nest", obs=1, wide=0, lazy=10000),
         dict(name="nest-all-D3-wide", scenario="nest", D=3, ops="all", obs=1, wide=1, lazy=10000),
+        dict(name="anon-D4", scenario="anon", D=4, ops="all", obs=1, wide=0, lazy=10000),
         dict(name="g0-sim-D6", scenario="g0", D=6, ops="all", obs=1, wide=1, simulate=40, lazy=5000),
         dict(name="g1-sim-D6", scenario="g1", D=6, ops="all", obs=1, wide=1, simulate=40, lazy=5000),
         dict(name="all-sim-D6", scenario="all", D=6, ops="all", obs=1, wide=1, simulate=30, lazy=5000),
